@@ -74,3 +74,35 @@ Definition c03_ok (x : list (option json * outcome) * list esig * Z * bool) : bo
   let s := serve_all sb_error_base_cost V2 xs in
   list_eqb esig_eqb (map sig_of_reply (s_wire s)) sigs && (s_errors s =? errs)%Z &&
   Bool.eqb (s_closing s) closing.
+
+(* ---------- the except ladder, as regenerated from the source ---------- *)
+(* gen/Gen_session.v carries the except clauses of RPCSession._throttled_request in source order
+   (request_ladder) and, probed on the running classes, which exception each clause catches
+   (exc_subclass).  [handler_for] is Python's rule: the first clause one of whose classes the exception
+   is an instance of. *)
+Definition raised (o : outcome) : option exc_class :=
+  match o with
+  | ORPC _ _ _ => Some XRPCError
+  | OProto _ _ => Some XProtocolError
+  | OOther => Some XOtherException
+  | OOverrun => Some XTaskTimeout           (* timeout_after(processing_timeout) raises TaskTimeout *)
+  | ODiscVal _ | ODiscErr _ _ | ODiscBad => Some XReplyAndDisconnect
+  | ORefused => Some XExcessiveSessionCost
+  | ORet _ | ORetBad => None
+  end.
+Definition handler_for (x : exc_class) : option (ladder_result * bool * bool) :=
+  match find (fun row => existsb (exc_subclass x) (fst (fst (fst row)))) request_ladder with
+  | Some (_, r, d, h) => Some (r, d, h)
+  | None => None
+  end.
+(* what [finish] above implements for each outcome that is an exception: the result handed on
+   (the exception itself / its payload / a fixed code), disconnect?, disconnect hook? *)
+Definition ladder_expect (o : outcome) : option (ladder_result * bool * bool) :=
+  match o with
+  | ORPC _ _ _ | OProto _ _ => Some (LOwn, false, false)
+  | OOther => Some (LCode INTERNAL_ERROR, false, false)
+  | OOverrun => Some (LCode SERVER_BUSY, false, false)
+  | ODiscVal _ | ODiscErr _ _ | ODiscBad => Some (LPayload, true, false)
+  | ORefused => Some (LCode EXCESSIVE_RESOURCE_USAGE, true, true)
+  | ORet _ | ORetBad => None
+  end.
